@@ -14,19 +14,23 @@ from ..symtorch import validate, SymT
 class WithPrior(torch.nn.Module):
     """f, g from a generic polynomial SDE; prior drift h generic, or h = f - g c for a constant vector c"""
 
-    def __init__(self, base, c=None):
+    def __init__(self, base, c=None, rowscale=None):
         super().__init__()
         self.base = base
         self.sde_type, self.noise_type = base.sde_type, base.noise_type
         self.c = c
+        self.rowscale = rowscale          # additive noise: state-independent diffusion that differs from batch row to batch row
 
     def f(self, t, y): return self.base.f(t, y)
-    def g(self, t, y): return self.base.g(t, y)
+
+    def g(self, t, y):
+        g = self.base.g(t, y)
+        return g if self.rowscale is None else g * self.rowscale
 
     def h(self, t, y):
         if self.c is None:
             return self.base.h(t, y)
-        g = self.base.g(t, y)
+        g = self.g(t, y)
         gc = g * self.c if self.noise_type == 'diagonal' else torch.bmm(g, self.c.expand(g.shape[0], -1).unsqueeze(-1)).squeeze(-1)
         return self.base.f(t, y) - gc
 
@@ -43,7 +47,10 @@ def scenario(task):
         mk = sdes.Maker(symbolic=True, seed=81)
         base = sdes.PolySDE(mk, st, nt, d=d, m=mm, degt=1, degy=1 if mode == 'const' else 2, with_h=True)
         c = mk('cc', (1, mm), values=0.4 - 0.3 * np.arange(mm).reshape(1, mm)) if mode == 'const' else None
-        sde = WithPrior(base, c)
+        rs = None
+        if nt == 'additive' and NB > 1:
+            rs = mk('rs', (NB, 1, 1), values=1.0 + 0.5 * np.arange(NB).reshape(NB, 1, 1))
+        sde = WithPrior(base, c, rs)
         y0 = mk('y0', (NB, d), values=0.6 + 0.1 * np.arange(NB * d).reshape(NB, d))
         # with logqp the state has one more channel: a diagonal-noise Brownian motion needs one more channel too
         return mk, sde, y0, c
@@ -185,8 +192,8 @@ def tasks_for(tier):
         d = 1 if nt in ('diagonal', 'general') else 2
         T.append(('ito', 'euler', nt, {}, d, 1 if nt in ('scalar', 'general') else 2, 'generic'))
     # batch of two rows with different states: the increment of a row must not involve the other row
-    for nt in ('diagonal', 'scalar', 'general'):
-        T.append(('ito', 'euler', nt, {}, 2 if nt != 'diagonal' else 1, 1, 'const', 2))
+    for nt in ('diagonal', 'scalar', 'general', 'additive'):
+        T.append(('ito', 'euler', nt, {}, 2 if nt != 'diagonal' else 1, 2 if nt == 'additive' else 1, 'const', 2))
     if not q:
         for st, method in (('stratonovich', 'midpoint'), ('stratonovich', 'heun'), ('ito', 'milstein'), ('stratonovich', 'reversible_heun')):
             for nt in ('diagonal', 'additive'):
@@ -236,7 +243,8 @@ def replay(data):
     mk = sdes.Maker(symbolic=False, env=env, seed=81)
     base = sdes.PolySDE(mk, st, nt, d=d, m=mm, degt=1, degy=1 if mode == 'const' else 2, with_h=True)
     c = mk('cc', (1, mm), values=0.4 - 0.3 * np.arange(mm).reshape(1, mm)) if mode == 'const' else None
-    sde = WithPrior(base, c)
+    rs = mk('rs', (NB, 1, 1), values=1.0 + 0.5 * np.arange(NB).reshape(NB, 1, 1)) if (nt == 'additive' and NB > 1) else None
+    sde = WithPrior(base, c, rs)
     y0 = mk('y0', (NB, d), values=0.6 + 0.1 * np.arange(NB * d).reshape(NB, d))
     bm = torchsde.BrownianInterval(0., 0.2, size=(NB, mm + (1 if nt == 'diagonal' else 0)), dtype=torch.float64, entropy=4, levy_area_approximation=sdes.levy_for(method))
     ys, lq = torchsde.sdeint(sde, y0, ts, bm=bm, method=method, dt=0.1, options=dict(opts), logqp=True)
